@@ -57,7 +57,10 @@ class HashableNdarray:
             copy: Whether the array is copied.
         """  # noqa: D205, D212, D415
         self.__copy = copy
-        self.__hash = int(xxh3_64_hexdigest(array.view(uint8)), 16)  # type: ignore[arg-type]
+        # Negative and positive zeros are equal but have different bytes:
+        # adding zero maps both of them to the positive zero before hashing.
+        hashed_array = array + 0.0 if array.dtype.kind in "fc" else array
+        self.__hash = int(xxh3_64_hexdigest(hashed_array.view(uint8)), 16)  # type: ignore[arg-type]
         self.__array = np_array(array) if copy else array
 
     def __eq__(self, other: object) -> bool:
